@@ -2,7 +2,7 @@
 def unit(name, kind, tracked=0, entries=None):
     return dict(
         name=name, harness='harness/c02_hash.cpp', sources=['repo:src/Memory.cpp'],
-        defines={'all': {'KIND': kind, 'TRACKED': tracked}, 'quick': {'VF_K': 2, 'VF_CAPS': 2, 'VF_HRANGE': 2, 'VF_NA': 2, 'VF_NB': 1}, 'thorough': {'VF_K': 3, 'VF_CAPS': 3, 'VF_HRANGE': 6, 'VF_NA': 3, 'VF_NB': 2}},
+        defines={'all': {'KIND': kind, 'TRACKED': tracked}, 'quick': {'VF_K': 2, 'VF_CAPS': 2, 'VF_HRANGE': 2, 'VF_NA': 2, 'VF_NB': 1}, 'thorough': {'VF_K': 3, 'VF_CAPS': 2, 'VF_HRANGE': 2, 'VF_NA': 3, 'VF_NB': 2}},
         entries=entries or ['history', 'step', 'capacities'],
         opts={'all': {'unwind': 64}},
         split={'quick': 8, 'thorough': 16},
@@ -12,7 +12,7 @@ def unit(name, kind, tracked=0, entries=None):
 UNITS = [unit('hashmap', 1), unit('hashset', 2), unit('poolmap', 3)]
 BOUNDS = {
     'quick': 'two tables with capacities in {1,2} (plus 0->1, 7, 500 in the capacities entry); histories of <= 2 operations after a pre-fill of <= 1, one operation from pre-fills of 0..2/0..1 distinct entries (thorough: 0..3/0..2); keys 32-bit symbolic, each distinct key value gets every hash residue modulo lcm(capacities) (every bucket layout incl. all-colliding); values 32-bit symbolic',
-    'thorough': 'capacities in {1,2,3}; histories of <= 3 operations',
+    'thorough': 'histories of <= 3 operations, one operation from pre-fills of 0..3/0..2 distinct entries',
 }
 OUTSIDE = 'tables with more than ~6 entries, HashSet<String> with the real string hash (covered for short strings by unit strhash), allocation failure'
 ASSUMPTIONS = ['clang++-14 -O1 IR of include/nstd/HashMap.hpp, HashSet.hpp, PoolMap.hpp instantiated with Key{int v; usize h} and int values',
